@@ -19,6 +19,8 @@ inductive SOp where
   | setReady (b : Bool)
   | setFlush (b : Bool)
   | fault (k : FaultKind)
+  | faultSkip (n : Nat)          -- the next armed fault lets `n` calls of its kind through first
+  | selfWake (b : Bool)          -- whether the transport wakes its owner when the owner's own flush restores readiness
   | take (n : Nat)
   | advance (n : Nat)
 deriving Repr, DecidableEq
@@ -48,6 +50,8 @@ def applyOp (c : Sys) : SOp → Sys
   | .setReady b => { c with s := liftT c.s (c.s.t.setReady b) }
   | .setFlush b => { c with s := liftT c.s (c.s.t.setFlush b) }
   | .fault k => { c with s := { c.s with t := armFault c.s.t k } }
+  | .faultSkip n => { c with s := { c.s with t := { c.s.t with faultSkip := n } } }
+  | .selfWake b => { c with s := { c.s with t := { c.s.t with selfWake := b } } }
   | .take n =>
       let (t, ms) := c.s.t.take n
       { c with s := ms.foldl (fun s m => emit s (.took (tid s) m)) { c.s with t := t } }
